@@ -421,12 +421,12 @@ fn part_a(rep: &Report, tier: Tier) {
 // ---------------------------------------------------------------------------------------
 
 #[derive(Clone, Debug, PartialEq, Eq, Hash)]
-struct BSt {
+pub struct BSt {
     rx: RxS,
     r: RefRx,
 }
 
-struct BSys {
+pub struct BSys {
     alphabet: Vec<(String, Vec<u8>)>,
 }
 
@@ -496,11 +496,15 @@ impl System for BSys {
     }
 }
 
+pub fn b_sys() -> BSys {
+    BSys { alphabet: b_alphabet() }
+}
+
 pub fn run(tier: Tier) -> i32 {
     let rep = Report::new("C03", tier);
     rep.set_rule("A: fragment trains from the real encapsulator (PDUs of 5/12/40 bytes x labels 6B/3B/broadcast/re-use x 2..5 fragments) with EVERY single fault of the menu (drop, duplicate, swap, every single-bit flip incl. header bits, every burst pattern up to 10 (thorough 14) bits at every bit offset, truncation at every byte, every fragment id value, listed total-length and CRC replacements) and all ordered pairs of drop/dup/swap/bit-flip faults (quick: first four trains); B: breadth-first search over all sequences of 16 hand-built, syntactically valid fragments (trains of two different PDUs spliced on one fragment id, another id, an aliasing id, right/wrong CRC and lengths) to closure with state merging on (receiver snapshot, reference state). Oracle in both: exact 'delivered only if' evaluated on the received bytes by a reference receiver + reference CRC. distinct = fault class x deliveries / packet x outcome");
     part_a(&rep, tier);
-    let sys = BSys { alphabet: b_alphabet() };
+    let sys = b_sys();
     let depth = 64;
     let ex = explore(&sys, &Limits { max_states: 5_000_000, max_depth: depth }, &rep, "B spliced trains");
     let delivered_states = ex.states.len();
